@@ -100,6 +100,10 @@ func (v *VM) exec() {
 		case codeNegate:
 			v.stack[len(v.stack)-1] = v.stack[len(v.stack)-1].opMul(newUntypedInt(-1))
 		case codeBitComplement:
+			if a := v.stack[len(v.stack)-1]; a.t == untypedInt {
+				v.stack[len(v.stack)-1] = Value{t: untypedInt, num: float64(^int(a.num))}
+				break
+			}
 			a := v.stack[len(v.stack)-1].assign(TypeNil)
 			b := Uint32(0xffffffff).convert(a.t)
 			v.stack[len(v.stack)-1] = a.opBitXor(b)
